@@ -97,7 +97,7 @@ type docCase struct {
 }
 
 var docStrings = []string{"abc", "", "with \"quote\" and \\ and \n", "é☃\U0001F600", "</x>&", " ", "\t tab and \u0000 nul \u001f us \u007f del", "\u2028line\u2029sep", "null", "true", "17", "{\"a\":1}", strings.Repeat("long-é-", 700)}
-var docTimes = []string{"2024-01-02T03:04:05Z", "2024-02-29T23:59:59.123456789+02:00", "1969-12-31T23:59:59.999-05:30", "0001-01-01T00:00:00Z", "9999-12-31T23:59:59.999999999Z", "2024-01-02T03:04:05+14:00", "2024-01-02T03:04:05.5Z", "2024-12-31T23:59:59-00:00"}
+var docTimes = []string{"2024-01-02T03:04:05Z", "2024-02-29T23:59:59.123456789+02:00", "1969-12-31T23:59:59.999-05:30", "0001-01-01T00:00:00Z", "9999-12-31T23:59:59.999999999Z", "2024-01-02T03:04:05+14:00", "2024-01-02T03:04:05.5Z", "2024-12-31T23:59:59-00:00", "2016-12-31T23:59:59.123456789012+05:30"}
 var docInt64 = []any{json.Number("0"), json.Number("42"), json.Number("-9223372036854775808"), json.Number("9223372036854775807"), json.Number("-0"), json.Number("-1"), json.Number("9007199254740993")}
 var docInt32 = []any{json.Number("0"), json.Number("-7"), json.Number("2147483647"), json.Number("-2147483648")}
 var docF64 = []any{json.Number("1.5"), json.Number("-2"), json.Number("1e21"), json.Number("1.7976931348623157e308"), json.Number("5e-324"), json.Number("0.1"), json.Number("-0"), json.Number("1E5"), json.Number("1e-7"), json.Number("0.000001"), json.Number("123456789012345680000"), json.Number("2.5e+3"), json.Number("9007199254740993")}
@@ -262,6 +262,26 @@ func docsFor(s map[string]any, rng *rand.Rand, n int) []docCase {
 				d[name] = w
 				out = append(out, docCase{doc: d, mut: "swap", prop: name})
 			}
+		}
+	}
+	if s["k"] == "object" {
+		// integers written in float notation (5.0, 1e3, the int64 limits with ".0" or an exponent): whether a decoder takes
+		// them is its own business ("maybe"), but if it does the value must be the integer the text denotes
+		for _, p := range s["props"].([]any) {
+			pm := p.(map[string]any)
+			k, _ := pm["s"].(map[string]any)["k"].(string)
+			if k != "int" && k != "int64" && k != "int32" {
+				continue
+			}
+			for _, lex := range []string{"5.0", "1e3", "-0.0", "9007199254740993.0", "9223372036854775807.0", "9.223372036854775808e18", "-9223372036854775808.0", "2147483647.0", "2.147483648e9", "1.5e0"} {
+				base, _ := sampleValue(s, rng, 0).(map[string]any)
+				if base == nil {
+					continue
+				}
+				base[pm["name"].(string)] = json.Number(lex)
+				out = append(out, docCase{doc: base, mut: "maybe", prop: pm["name"].(string)})
+			}
+			break // (one integer property per schema is enough)
 		}
 	}
 	if d, _ := s["disc"].(string); s["k"] == "oneOf" && d != "" {
